@@ -292,6 +292,19 @@ def ob_tx_write(ex, nchunks=2):
         for e in ios:
             written += norm(e["data"])
         lens = f.meta.get("chunk_lens", [])
+        # file offsets: every open file description has its own position (none of them is opened with O_APPEND); the staging
+        # file is the chunks in order only if every write starts where all earlier writes - through ANY descriptor - ended
+        fd_off, total_so_far, off_ok = {}, z3.IntVal(0), []
+        for e in ios:
+            ln = z3.IntVal(0)
+            for dd in norm(e["data"]):
+                if isinstance(dd, tuple) and dd and dd[0] == "slice":
+                    ln = ln + dd[3]
+            fd = e.get("fd")
+            start = fd_off.get(fd, z3.IntVal(0))
+            off_ok.append(z3.Or(ln == 0, start == total_so_far))
+            fd_off[fd] = start + ln
+            total_so_far = total_so_far + ln
 
         def total(seq):
             s_ = z3.IntVal(0)
@@ -331,6 +344,8 @@ def ob_tx_write(ex, nchunks=2):
                         last_chunk = max(last_chunk, idx)
                 posts[f"C18 {seqname} stream is the chunks in order without gaps"] = z3.And(okc) if okc else z3.BoolVal(True)
         posts["C18 recorded size == total length"] = sizes[id(f)] == want
+        if len(fd_off) > 1:
+            posts["C18/C06 every write to the staging file starts where the earlier ones ended (one file position per open descriptor)"] = z3.And(off_ok)
         for lab, post in posts.items():
             n += 1
             if isinstance(post, bool):
